@@ -107,7 +107,7 @@ func runC07c(rc *RunCtx, race bool) {
 	for t := 0; t < nTasks; t++ {
 		t := t
 		simrt.GoNamed(fmt.Sprintf("adder-%d", t), func() {
-			var mine []int            // handshakes this task presented, in order
+			var mine []int             // handshakes this task presented, in order
 			last := map[int]*c07call{} // latest call per handshake
 			for k := 0; k < nOps; k++ {
 				var h int
